@@ -6,7 +6,11 @@
    offers no input at all).  [ob_progress] is the C condition as evaluated by the accounting code: a call that
    consumes the last byte of a frame whose output is not flushed yet and then takes it back (hostage byte,
    input->pos--) is a progress call for the counter although the caller sees pos unchanged - so the caller can
-   observe at most one more zero-progress return than the counter counts.  Model only - no proofs in this file. *)
+   observe at most one more zero-progress return than the counter counts.  Conversely the call that finally receives
+   that byte does nothing before the accounting and takes the byte afterwards (input->pos++): a zero-progress call
+   for the counter with input AND output available - the one observation of the real decoder that is not [legal]
+   below, and the way to reach the assert(0) ([NpAssert]) of the code (observation O1 in docs/C03.md).
+   Model only - no proofs in this file. *)
 From Coq Require Import NArith List Bool.
 From ZV.Gen Require Import Gen_C03.
 Import ListNotations.
